@@ -13,12 +13,16 @@ import FitModel.Generated.ProfileTables
 -- @family typedseq Drv.Typed.hSeq
 -- @family typedmark Drv.Typed.hMark
 -- @family typednils Drv.Typed.hNils
+-- @family typedmsm Drv.Typed.hMSM
 /-!
 Driver for the family `typed` (C13): the generic model `Fit.Typed.ofMesg` / `toMesg` instantiated with the
 regenerated per-message tables (`Fit.Gen.Mesgdef.tables`); the standard factory's `CreateField` is read from the
 regenerated dump of the factory (`Fit.Gen.Prof.mesgs`). Syntax: harness/fam_typed.go.
 `--spec`: `typedrt` → `typedNormalFull` (what the property demands; equal to `typedNormal`, what the code does, outside the
-classes of KF-C13-1 / KF-C13-2, which `--kf` names); `typedid` → the struct itself when `inRange` (else n/a).
+classes of KF-C13-1 / KF-C13-2 / KF-C13-3, which `--kf` names); `typedid` → `normDoc` of the struct (the struct up to the
+documented normalisation: `C13_struct_mesg_struct_partial`) unless the struct is outside the property's quantifier
+(`hasTimeBeyond`, `¬ unknownsOk`: n/a); `typedmsm` (a struct as `Reset` builds it, then through ToMesg and back) → the same,
+`--kf` names KF-C13-2 when the struct carries a mark on a non-eligible number (`hasStrayBit`).
 `typednils`: as `typedrt`, but every EMPTY array value of the message is handed to the code as a proto.Value built from a
 nil Go slice; for the accessors (`SliceUint8()` … on a nil slice return nil) that is the invalid value, so the model
 replaces the value of every stored field by `.invalid` (`nilify`); unknown fields are kept verbatim and print the same.
@@ -61,6 +65,7 @@ def parseOpts (s : String) : Option (Options × Fac) :=
 /-! ### struct text -/
 
 def printSlot : SlotVal → String
+  | .val (.bool v) => if v ≥ 2 && v != 255 then "rb:" ++ leHex 1 v else printValue (.bool v)   -- a typedef.Bool other than 0 / 1 / 255
   | .val v => printValue v
   | .time t => s!"t:{t}"
 
@@ -81,6 +86,13 @@ def parseSlot (s : Slot) (txt : String) : Option SlotVal :=
     let r ← stripPrefix? txt "t:"
     let t ← parseIntDec r
     if t > 2 ^ 40 || t < -(2 ^ 40 : Int) then none else some (.time t)
+  | .bool =>
+    if let some r := stripPrefix? txt "rb:" then do
+      let b ← parseHexByte r
+      if b ≥ 2 && b != 255 && r == leHex 1 b then some (.val (.bool b)) else none
+    else do
+      let v ← parseValue txt
+      if shapeOk s (.val v) then some (.val v) else none
   | _ => do
     let v ← parseValue txt
     if shapeOk s (.val v) then some (.val v) else none
@@ -144,7 +156,8 @@ def kfOf (nils : Bool) (args : List String) : String :=
     match tableOf name, parseMessage m with
     | some T, some msg0 =>
       let msg := if nils then nilify T msg0 else msg0
-      let ids := (if hasForeign T msg then ["KF-C13-1"] else []) ++ (if hasStrayMark T msg then ["KF-C13-2"] else [])
+      let ids := (if hasForeign T msg then ["KF-C13-1"] else []) ++ (if hasStrayMark T msg then ["KF-C13-2"] else []) ++
+        (if hasLostDev T msg then ["KF-C13-3"] else [])
       if ids.isEmpty then "-" else ",".intercalate ids
     | _, _ => "-"
   | _ => "-"
@@ -173,11 +186,31 @@ def structId (spec : Bool) (args : List String) : String :=
       match parseStruct T s with
       | none => "bad-op"
       | some st =>
-        if spec then (if inRange T st then printStruct T st else "n/a") else
+        if spec then
+          (if wellTyped T st && unknownsOk T st && !hasTimeBeyond T st then printStruct T (normDoc T st) else "n/a") else
         match ofMesg T (toMesg T (facField .std T.num) { includeExpanded := true } st) with
         | .panic => "panic"
         | .ok st' => printStruct T st'
   | _ => "bad-op"
+
+/-- `typedmsm <Name> <message>`: `s := NewXxx(&m)`; `s' := NewXxx(&s.ToMesg({std, IncludeExpandedFields}))` → `<s> <s'>`;
+mode 1 = what the property demands for `s'` (`normDoc s`), mode 2 = the known-finding classes -/
+def mesgStructBack (mode : Nat) (args : List String) : String :=
+  match args with
+  | [name, m] =>
+    match tableOf name, parseMessage m with
+    | some T, some msg =>
+      match ofMesg T msg with
+      | .panic => if mode == 0 then "panic" else if mode == 1 then "n/a" else "-"
+      | .ok st =>
+        if mode == 2 then (if hasStrayBit T st then "KF-C13-2" else "-") else
+        if mode == 1 then
+          (if wellTyped T st && unknownsOk T st && !hasTimeBeyond T st then printStruct T st ++ " " ++ printStruct T (normDoc T st) else "n/a") else
+        match ofMesg T (toMesg T (facField .std T.num) { includeExpanded := true } st) with
+        | .panic => "panic"
+        | .ok st' => printStruct T st ++ " " ++ printStruct T st'
+    | _, _ => if mode == 0 then "bad-op" else if mode == 1 then "n/a" else "-"
+  | _ => if mode == 0 then "bad-op" else if mode == 1 then "n/a" else "-"
 
 def nilStruct (args : List String) : String :=
   match args with
@@ -238,7 +271,35 @@ def hNils : Handler := fun r =>
       | s => (s.splitOn " ").head! ++ " " ++ fromMesgG true false true r.args
   | .kf => kfOf true r.args
   | .prop => "n/a"
-def hSM : Handler := modelOnly structToMesg
+/-- `--prop` for `typedsm` ("invalid-valued fields omitted", evaluated on the implementation's own answer): every field of
+the emitted message that belongs to a slot of the struct carries a value that is worth something to the typed layer by the
+protocol's notion of invalid (`specVal`, which looks at kind / value type / base type only — not at the probed sentinel) and
+is in the slot's normal form (fixed arrays of the declared length) -/
+def emittedValid (args : List String) (impl : String) : String :=
+  match args with
+  | [name, _, stxt] =>
+    match tableOf name, (impl.splitOn " ").head? with
+    | some T, some mtxt =>
+      -- structs outside the property's quantifier (a time the protocol cannot hold, UnknownFields the message type knows)
+      let inScope := match parseStruct T stxt with
+        | some st => wellTyped T st && unknownsOk T st && !hasTimeBeyond T st
+        | none => false
+      if !inScope then "n/a" else
+      match parseMessage mtxt with
+      | none => if impl == "bad-op" || impl == "panic" then "n/a" else "fail:unparsable"
+      | some m =>
+        let bad := m.fields.filter fun f =>
+          stored T f && T.slots.any fun sl => numIs sl.num f && specVal sl f.value != some f.value
+        if bad.isEmpty then "ok" else "fail:invalid-valued field emitted " ++ ";".intercalate (bad.map printField)
+    | _, _ => "n/a"
+  | _ => "n/a"
+
+def hSM : Handler := fun r =>
+  match r.mode with
+  | .model => structToMesg r.args
+  | .kf => "-"
+  | .spec => "n/a"
+  | .prop => emittedValid r.args r.impl
 def hID : Handler := fun r =>
   match r.mode with
   | .model => structId false r.args
@@ -246,6 +307,12 @@ def hID : Handler := fun r =>
     | "bad-op" => "n/a"
     | s => s
   | .kf => "-"
+  | .prop => "n/a"
+def hMSM : Handler := fun r =>
+  match r.mode with
+  | .model => mesgStructBack 0 r.args
+  | .spec => mesgStructBack 1 r.args
+  | .kf => mesgStructBack 2 r.args
   | .prop => "n/a"
 def hNil : Handler := modelOnly nilStruct
 def hSeq : Handler := modelOnly resetReuse
